@@ -89,6 +89,7 @@ func (fr *Frame) call(in ssa.Value, cc *ssa.CallCommon, st *State) Val {
 			if !ok {
 				panic(vcErr("invoke on %T", recv))
 			}
+			fr.causalRead(cc, args, st, pos)
 			return wrap(fr.ndInvoke(iv, rt, cc.Method, args, st, pos))
 		}
 		panic(vcErr("invoke of %s.%s unsupported", rt, cc.Method.Name()))
@@ -677,4 +678,57 @@ func (fr *Frame) ndInvoke(recv IfaceV, rt types.Type, m *types.Func, args []Val,
 		names = append(names, sig.Params().At(i).Name())
 	}
 	return fr.callByContract(fc, sig, names, all, st, pos, "ND."+name)
+}
+
+// causalRead: inside a kernel's time loop, an input series may only be read
+// at indices up to the current timestep (C14: outputs at t do not depend on
+// inputs after t).
+func (fr *Frame) causalRead(cc *ssa.CallCommon, args []Val, st *State, pos token.Pos) {
+	c := fr.c
+	if !fr.top || fr.fc == nil || !fr.fc.Kernel || fr.fc.CausalByEnsures || fr.curBlock == nil {
+		return
+	}
+	p, ok := cc.Value.(*ssa.Parameter)
+	if !ok {
+		return
+	}
+	if fr.timeLoop == nil {
+		fr.timeLoop = fr.timeLoopOf()
+		fr.inputs = fr.inputSeries()
+	}
+	li := fr.timeLoop
+	if li == nil || !li.blocks[fr.curBlock] || !fr.inputs[p] {
+		return
+	}
+	idxPhi := loopIndexPhi(li)
+	if idxPhi == nil {
+		return
+	}
+	i, ok := fr.vals[idxPhi].(T)
+	if !ok {
+		return
+	}
+	var idx T
+	switch cc.Method.Name() {
+	case "Get":
+		loc, ok := args[0].(SliceV)
+		if !ok || loc.Elem != SInt {
+			return
+		}
+		h := c.heap(st, "H.Int", heapSort(SInt))
+		idx = c.sel(c.sel(h, loc.ID), loc.Off)
+	case "Get1":
+		idx, ok = args[0].(T)
+		if !ok {
+			return
+		}
+	case "Len1", "Len", "Shape", "NDims":
+		return
+	default:
+		c.oblige(st, "frame", "C14.causal-read", []string{"C14"}, tFalse, pos,
+			fmt.Sprintf("input series %s is read element-wise in the time loop (whole-array method %s used)", p.Name(), cc.Method.Name()))
+		return
+	}
+	c.oblige(st, "causal", "C14.causal-read", []string{"C14"}, app(SBool, "<=", idx, i), pos,
+		fmt.Sprintf("input series %s is read at an index <= the current timestep", p.Name()))
 }
